@@ -146,9 +146,41 @@ fn accepted_any_case(g: &mut Gen, ctx: &mut Ctx) -> CaseResult {
     expect_eq(&format!("accepted {} ({}): decrypt", kind.name(), hex_trunc(&bytes, 60)), &a, &ref_enc_structure(cname, &w, &aad))
 }
 
+/// A built protected header that has no encoding is refused: no additional data is produced for
+/// it, in particular not that of a different header.
+fn unencodable_case(g: &mut Gen, ctx: &mut Ctx) -> CaseResult {
+    let (bad, sibling) = gen_unencodable_header(g, ctx);
+    let aad = g.small_bytes();
+    ctx.nontrivial(hash_bytes(format!("u|{:?}|{:?}", bad, aad).as_bytes()));
+    ctx.sample_with(|| format!("built protected header without an encoding: {:?}", bad));
+    let pb = coset::ProtectedHeader { original_data: None, header: bad.clone() };
+    let ps = coset::ProtectedHeader { original_data: None, header: sibling.clone() };
+    let c = CTXS[g.below(5)];
+    if let Ok(b) = crate::run::catch(|| enc_structure_data(c, pb.clone(), &aad)) {
+        ensure!(Some(&b) != crate::run::catch(|| enc_structure_data(c, ps.clone(), &aad)).as_ref().ok(), "enc_structure_data: a protected header that cannot be encoded shares additional data with a different header\n  header:  {:?}\n  sibling: {:?}", bad, sibling);
+        fail!("enc_structure_data produced {} for a protected header that has no encoding: {:?}", hex_trunc(&b, 80), bad);
+    }
+    let called = RefCell::new(0u32);
+    let r = crate::run::catch(|| {
+        CoseEncrypt0Builder::new().protected(bad.clone()).create_ciphertext(b"pt", &aad, |_, _| {
+            *called.borrow_mut() += 1;
+            vec![1u8]
+        }).build().ciphertext
+    });
+    ensure!(r.is_err() && *called.borrow() == 0, "create_ciphertext encrypted something for a protected header that has no encoding: {:?}", bad);
+    let m = CoseEncrypt0 { protected: pb, unprotected: Header::default(), ciphertext: Some(vec![1]) };
+    let called = RefCell::new(0u32);
+    let r = crate::run::catch(|| m.decrypt(&aad, |_, _| -> Result<Vec<u8>, u8> { *called.borrow_mut() += 1; Ok(vec![]) }));
+    ensure!(r.is_err() && *called.borrow() == 0, "decrypt handed the cipher something for a protected header that has no encoding: {:?}", bad);
+    Ok(())
+}
+
 fn case(g: &mut Gen, ctx: &mut Ctx) -> CaseResult {
     if g.ratio(1, 4) {
         return wire_carrier_case(g, ctx);
+    }
+    if g.ratio(1, 16) {
+        return unencodable_case(g, ctx);
     }
     if g.ratio(1, 6) {
         return accepted_any_case(g, ctx);
